@@ -707,6 +707,11 @@ func (env *Env) callExpr(e *SExpr) Val {
 			case "allocated":
 				x := env.eval(e.Args[0])
 				return Val{t: sel(ex.get(env.cur, ex.allocComp()), env.refOf(x)), typ: boolT}
+			case "wasAllocated":
+				// allocated when the state `old` refers to was taken (function entry for a FUC, the pre-state at a call)
+				x := env.eval(e.Args[0])
+				r := env.refOf(x)
+				return Val{t: or(eq(r, tNil), sel(ex.get(env.old, ex.allocComp()), r)), typ: boolT}
 			case "fresh":
 				x := env.eval(e.Args[0])
 				r := env.refOf(x)
